@@ -51,6 +51,21 @@ def run(ctx):
                "exp send %s d 500 500@%s=x%s" % (rng.choice("012"), s.tok(), G.hexs(G.rand_bytes(rng, payload))),
                X.send_data(rng, 500, [s], 1, maxlen=20)]
         cases.append(Case(ops, "oversize", True, True))
+    # the limit does not depend on what was sent before: LEGAL messages of growing size (past 32 KB, up to the limit itself -
+    # whatever a process reuses between sends has grown by then), then oversize ones of every kind of excess, then a small one
+    rng5 = random.Random(ctx.seed * 1000003 + 909)
+    for _ in range(40 if ctx.tier == "quick" else 1500):
+        ops = ["exp new 1", X.send_template(rng5, 500, [s])]
+        sizes = sorted(rng5.sample(range(20000, 65536), rng5.randint(1, 4))) + ([65535] if rng5.random() < 0.5 else [])
+        if rng5.random() < 0.5:
+            sizes = [rng5.randint(32768, 40000), rng5.randint(50000, 65535)] + sizes[-1:]
+        over = [rng5.choice([65536, 65537, 65539, 65540, 65535 + 16, 65558]) for _ in range(rng5.randint(1, 3))]   # (one value of at most 65535 bytes)
+        for total in sizes + over:
+            ops.append("exp send %s d 500 500@%s=x%s" % (rng5.choice(["0", "1", "2", "0r", "2r"]), s.tok(), G.hexs(G.rand_bytes(rng5, total - 16 - 4 - 3))))
+            if rng5.random() < 0.3:
+                ops.append(X.send_data(rng5, 500, [s], 1, maxlen=20))
+        ops.append(X.send_data(rng5, 500, [s], 2, maxlen=20))
+        cases.append(Case(ops, "oversize-after-growth", True, True))
     for _ in range(3 if ctx.tier == "quick" else 40):
         cases.append(X.mixed_session(rng, sup, "oversize-template"))
     # Write outcomes: a template whose Write failed was never sent; failing data Writes
